@@ -1,28 +1,36 @@
 """C02 / C03 helper — the recovery construction of the symmetry-matching decoders against Model/Smwpm.lean.
 
-`cases(ctx)` runs the REAL `RotatedPlanarSMWPMDecoder` (decode and decode_ftp) on exhaustive small and random inputs
-inside the stated noise domain, RECORDS from outside (class attributes wrapped for the duration of a call, no /repo
-edit) what the decoder built — the keys of the symmetry graph, the set `gt.mwpm` returned for it, the clusters, the
-`_ClusterNode` objects of the cluster graph in creation order, its keys, the second matching, both stage outputs and
-the returned recovery — and queues correspondence cases for the driver ops `smwpm …`:
+`cases(ctx, budget=None, families=('planar', 'toric'))` runs the REAL `RotatedPlanarSMWPMDecoder` and
+`RotatedToricSMWPMDecoder` (decode and decode_ftp) on exhaustive small and random inputs inside the stated noise domain
+(rotated planar 3x3..5x5 incl. non-square, rotated toric 2x2..6x4; ideal and FTP with T <= 3; p in {0, .05, .2, .5},
+q in {0, .1, .2, p, 1}; finite bias — derived from the model or eta given — with arbitrary Pauli errors, infinite bias
+with Y-only errors), RECORDS from outside (class attributes wrapped for the duration of a call, no /repo edit) what
+the decoder built — the keys of the symmetry graph(s), the set `gt.mwpm` returned, the clusters, the `_ClusterNode`
+objects of the cluster graph in creation order, its keys, the second matching, both stage outputs and the returned
+recovery — and queues correspondence cases for the driver ops `smwpm …` (planar) / `smwpm t…` (toric):
 
   nodes / edges   model graph (node set, edge set as unordered pairs)      == recorded graph keys
   clusters        model `_clusters(recorded matches)`                       == recorded clusters (EXACT: the code sorts
                                                                               the column mates, so the list is a function
                                                                               of the match SET)
   cnodes / cedges model `_cluster_graph` nodes in creation order / edges    == recorded objects / keys (by creation index)
-  rec1 / rec2     model `_recovery`, `_cluster_recovery`                    == recorded stage outputs (exact bits)
+  rec1 / rec2     model `_recovery`, `_cluster_recovery` (operators)        == recorded stage outputs (exact bits)
   decode          model decode(recorded matches, recorded cluster matches)  == 'pm=1 rec=<returned recovery>'
                   (pm = both recorded matchings are perfect matchings of the MODELLED graphs — the hypothesis of
-                  the theorems in Props/C02/Smwpm.lean)
-  path            `_path_operator` for ALL ordered pairs of (virtual) plaquettes of each size, incl. the ValueError.
+                  the theorems in Props/C02/Smwpm.lean, Props/C02/SmwpmToric.lean)
+  path / corners  planar `_path_operator` for ALL ordered pairs of (virtual) plaquettes of each size (incl. the
+                  ValueError / AssertionError), `_cluster_corner_indices`.
+Every decode is also monitored directly (no exception, synd(recovery) == XOR of rows; keys
+`Rotated{Planar,Toric}SMWPM.decode:{raises,timeout,syndrome}`).
 
 Where run-to-run instability comes from (found by reading + experiment): `_ClusterNode` has identity hashing, so the
 cluster graph handed to networkx iterates its nodes in an address-dependent order and `max_weight_matching` may return
-a DIFFERENT (equal weight) perfect matching of the cluster graph from run to run; `_cluster_recovery` then fuses other
-pairs and the returned recovery differs by a stabilizer/logical.  Nothing else is unstable (symmetry-graph nodes are
-tuples).  The comparison here is on the recovery as a function of the RECORDED second matching, named by creation
-indices, which is exact and run-independent.
+a DIFFERENT (equal weight) perfect matching of the cluster graph from run to run, and may name the two nodes of a pair in
+either order; `_cluster_recovery` then fuses other pairs, and because `_path_operator(a, b)` is NOT symmetric
+(diagonal first from a) even the same pair in the other order gives another operator; the returned recovery differs by
+a stabilizer/logical.  Nothing else is unstable (symmetry-graph nodes are tuples).  The comparison here is on the
+recovery as a function of the RECORDED second matching — pairs named by creation indices, orientation kept — which is
+exact and run-independent.
 """
 import contextlib
 
@@ -72,7 +80,7 @@ def clusters_w(cl):
 def cnode_w(n):
     if n.cluster is None and n.x_index is None:
         return 'e'
-    if n.is_virtual:
+    if getattr(n, 'is_virtual', False):
         k = 'c'
     else:
         k = None  # decided by the caller (defective / neutral)
@@ -118,15 +126,22 @@ def patched(D, rec):
 
         def w(c, *a, **k):
             out = f(c, *a, **k)
+            if name == '_graphs':       # a generator: materialise so that it can be recorded and still consumed
+                out = list(out)
             hook(a, out)
             return out
         setattr(D, name, classmethod(w))
 
     def h_graph(a, out):
-        rec.graphs.append(list(out.keys()))
+        if isinstance(out, list):   # rotated toric `_graphs`: several graphs, matched separately and united
+            rec.graphs.append([k for g in out for k in g.keys()])
+        else:
+            rec.graphs.append(list(out.keys()))
 
     def h_matching(a, out):
-        rec.matchings.append((list(a[0].keys()), set(out)))
+        g = a[0]
+        keys = [k for gg in g for k in gg.keys()] if isinstance(g, list) else list(g.keys())
+        rec.matchings.append((keys, set(out)))
 
     def h_clusters(a, out):
         rec.clusters = [list(c) for c in out]
@@ -143,7 +158,7 @@ def patched(D, rec):
     orig_node = D.__dict__.get('_ClusterNode')
     try:
         del MISSING[:]
-        wrap(('_graph',), h_graph)
+        wrap(('_graph', '_graphs'), h_graph)
         wrap(('_matching',), h_matching)
         wrap(('_clusters',), h_clusters)
         wrap(('_recovery', '_recovery_tparities'), h_rec1)
@@ -225,13 +240,15 @@ def ftp_rows(rng, S, n, T, p, q, yonly):
 
 # ----------------------------------------------------------------------------------------------- one decode
 
-def one(ctx, acc, D, dec, code, S, size, rows, ideal, em_spec, p, q, tag):
+def one(ctx, acc, D, dec, code, S, size, rows, ideal, em_spec, p, q, tag, toric=False):
     """run the real decoder on `rows`, queue the correspondence cases; returns the recovery (or None)"""
     R, C = size
+    pre = 'smwpm t' if toric else 'smwpm '
+    dname = 'RotatedToricSMWPM' if toric else 'RotatedPlanarSMWPM'
     rec = acc['rec']
     rec.reset()
     em = make_em(em_spec)
-    meta = {'kind': 'smwpm', 'size': [R, C], 'rows': mat(rows), 'ideal': ideal, 'em': list(em_spec), 'p': p, 'q': q,
+    meta = {'kind': 'smwpm', 'toric': toric, 'size': [R, C], 'rows': mat(rows), 'ideal': ideal, 'em': list(em_spec), 'p': p, 'q': q,
             'eta': dec._eta, 'tag': tag}
     try:
         with core.TimeLimit(TL), patched(D, rec):
@@ -241,16 +258,16 @@ def one(ctx, acc, D, dec, code, S, size, rows, ideal, em_spec, p, q, tag):
                 out = dec.decode_ftp(code, len(rows), rows, error_model=em, error_probability=p,
                                      measurement_error_probability=q)
     except core.TimeLimit.Expired:
-        ctx.monitor_fail('smwpm decode timed out', meta, key='RotatedPlanarSMWPM.decode:timeout')
+        ctx.monitor_fail('smwpm decode timed out', meta, key=dname + '.decode:timeout')
         return None
     except Exception as ex:  # inside the stated domain the decoder must not raise
-        ctx.monitor_fail('smwpm decode raised {!r}'.format(ex)[:300], meta, key='RotatedPlanarSMWPM.decode:raises')
+        ctx.monitor_fail('smwpm decode raised {!r}'.format(ex)[:300], meta, key=dname + '.decode:raises')
         if rec.graphs:  # still tie what was built before the exception
             gkeys = rec.graphs[0]
             fl = flags_of(dec._bias(em), p, 0.0 if ideal else q)
-            ctx.case('smwpm nodes {} {} {}'.format(R, C, mat(rows)), nodes_w([a for a, b in gkeys] + [b for a, b in gkeys]),
+            ctx.case(pre + 'nodes {} {} {}'.format(R, C, mat(rows)), nodes_w([a for a, b in gkeys] + [b for a, b in gkeys]),
                      meta=dict(meta, part='nodes'))
-            ctx.case('smwpm edges {} {} {} {}'.format(fl, R, C, mat(rows)), edges_w(gkeys), meta=dict(meta, part='edges'))
+            ctx.case(pre + 'edges {} {} {} {}'.format(fl, R, C, mat(rows)), edges_w(gkeys), meta=dict(meta, part='edges'))
         return None
     recovery = np.array(out.recovery if hasattr(out, 'recovery') else out, dtype=int)
     bias = dec._bias(em)
@@ -269,8 +286,8 @@ def one(ctx, acc, D, dec, code, S, size, rows, ideal, em_spec, p, q, tag):
     m = dict(meta)
     # graph
     nodes = [a for a, b in gkeys] + [b for a, b in gkeys]
-    ctx.case('smwpm nodes {} {} {}'.format(R, C, rw), nodes_w(nodes), nontrivial=nontriv, meta=dict(m, part='nodes'))
-    ctx.case('smwpm edges {} {} {} {}'.format(fl, R, C, rw), edges_w(gkeys), nontrivial=nontriv,
+    ctx.case(pre + 'nodes {} {} {}'.format(R, C, rw), nodes_w(nodes), nontrivial=nontriv, meta=dict(m, part='nodes'))
+    ctx.case(pre + 'edges {} {} {} {}'.format(fl, R, C, rw), edges_w(gkeys), nontrivial=nontriv,
              meta=dict(m, part='edges'))
     # clusters from the recorded matching
     ms = rec.matchings[0][1]
@@ -278,7 +295,7 @@ def one(ctx, acc, D, dec, code, S, size, rows, ideal, em_spec, p, q, tag):
     ctx.case('smwpm clusters {}'.format(msw), clusters_w(rec.clusters), nontrivial=bool(rec.clusters),
              meta=dict(m, part='clusters'))
     clw = clusters_w(rec.clusters)
-    ctx.case('smwpm rec1 {} {} {}'.format(R, C, clw), bits(rec.rec1), nontrivial=bool(rec.clusters),
+    ctx.case(pre + 'rec1 {} {} {}'.format(R, C, clw), bits(rec.rec1), nontrivial=bool(rec.clusters),
              meta=dict(m, part='rec1'))
     # cluster graph: nodes by creation index
     created = rec.created
@@ -299,8 +316,12 @@ def one(ctx, acc, D, dec, code, S, size, rows, ideal, em_spec, p, q, tag):
         cew = '|'.join('{}>{}'.format(a, b) for a, b in cew)
     else:
         cnw, cew = '.', '.'
-    ctx.case('smwpm cnodes {} {} {} {}'.format(R, C, T, clw), cnw, nontrivial=cnw != '.', meta=dict(m, part='cnodes'))
-    ctx.case('smwpm cedges {} {} {} {}'.format(R, C, T, clw), cew, nontrivial=cew != '.', meta=dict(m, part='cedges'))
+    if toric:
+        ctx.case('smwpm tcnodes {}'.format(clw), cnw, nontrivial=cnw != '.', meta=dict(m, part='cnodes'))
+        ctx.case('smwpm tcedges {}'.format(clw), cew, nontrivial=cew != '.', meta=dict(m, part='cedges'))
+    else:
+        ctx.case('smwpm cnodes {} {} {} {}'.format(R, C, T, clw), cnw, nontrivial=cnw != '.', meta=dict(m, part='cnodes'))
+        ctx.case('smwpm cedges {} {} {} {}'.format(R, C, T, clw), cew, nontrivial=cew != '.', meta=dict(m, part='cedges'))
     cms = rec.matchings[1][1]
     try:
         # orientation kept: `_path_operator(a, b)` is NOT symmetric (diagonal first from a), so the recovery
@@ -309,13 +330,19 @@ def one(ctx, acc, D, dec, code, S, size, rows, ideal, em_spec, p, q, tag):
         cmw = '|'.join('{}>{}'.format(a, b) for a, b in cmw) if cmw else '.'
     except KeyError:
         cmw = 'unknown-object'
-    ctx.case('smwpm rec2 {} {} {} {} {}'.format(R, C, T, clw, cmw), bits(rec.rec2), nontrivial=cmw != '.',
-             meta=dict(m, part='rec2'))
-    ctx.case('smwpm decode {} {} {} {} {} {}'.format(fl, R, C, rw, msw, cmw), 'pm=1 rec=' + bits(recovery),
-             nontrivial=nontriv, meta=dict(m, part='decode'))
+    if toric:
+        ctx.case('smwpm trec2 {} {} {} {}'.format(R, C, clw, cmw), bits(rec.rec2), nontrivial=cmw != '.',
+                 meta=dict(m, part='rec2'))
+        ctx.case('smwpm tdecode {} {} {} {} {} {}'.format(fl, R, C, rw, msw, cmw), 'pm=1 rec=' + bits(recovery),
+                 nontrivial=nontriv, meta=dict(m, part='decode'))
+    else:
+        ctx.case('smwpm rec2 {} {} {} {} {}'.format(R, C, T, clw, cmw), bits(rec.rec2), nontrivial=cmw != '.',
+                 meta=dict(m, part='rec2'))
+        ctx.case('smwpm decode {} {} {} {} {} {}'.format(fl, R, C, rw, msw, cmw), 'pm=1 rec=' + bits(recovery),
+                 nontrivial=nontriv, meta=dict(m, part='decode'))
     acc['decodes'] += 1
     acc['defective'] += int(cmw != '.')
-    ctx.count('smwpm.size', '{}x{}'.format(R, C))
+    ctx.count('smwpm.size', '{}{}x{}'.format('t' if toric else '', R, C))
     ctx.count('smwpm.T', T if not ideal else 'ideal')
     ctx.count('smwpm.bias', 'inf' if bias is None else 'finite')
     ctx.count('smwpm.clusters', min(len(rec.clusters), 6))
@@ -359,79 +386,99 @@ def path_cases(ctx, D, code, size):
 
 # ----------------------------------------------------------------------------------------------- entry point
 
-def cases(ctx, budget=None):
+def all_syndromes(S, n, yonly):
+    """distinct syndromes of all Pauli (or all Y-only) errors on n qubits (n small)"""
+    seen = {}
+    ops = ('I', 'Y') if yonly else ('I', 'X', 'Y', 'Z')
+    import itertools
+    for tup in itertools.product(ops, repeat=n):
+        e = np.zeros(2 * n, dtype=int)
+        for qb, op in enumerate(tup):
+            if op in 'XY':
+                e[qb] = 1
+            if op in 'ZY':
+                e[n + qb] = 1
+        s = synd(S, e)
+        seen.setdefault(bits(s), s)
+    return [seen[k] for k in sorted(seen)]
+
+
+def cases(ctx, budget=None, families=('planar', 'toric')):
     """queue the correspondence cases; returns a dict of counters"""
     from qecsim.models.rotatedplanar import RotatedPlanarCode, RotatedPlanarSMWPMDecoder as PD
+    from qecsim.models.rotatedtoric import RotatedToricCode, RotatedToricSMWPMDecoder as TD
     rng = ctx.rng
     quick = ctx.quick()
     acc = {'rec': Rec(), 'decodes': 0, 'defective': 0, 'hooks_incomplete': 0, 'paths': 0, 'monitor': 0}
-    sizes = [(3, 3), (3, 4), (4, 3), (4, 4), (3, 5), (5, 3), (4, 5), (5, 5)]
     n_rand = budget if budget is not None else (10 if quick else 60)
     PS = [0.05, 0.1, 0.2, 0.3, 0.5]
-    for size in sizes:
-        code = RotatedPlanarCode(*size)
-        S = np.array(code.stabilizers, dtype=int)
-        n = S.shape[1] // 2
-        acc['paths'] += path_cases(ctx, PD, code, size)
+    fams = {'planar': (False, PD, RotatedPlanarCode, [(3, 3), (3, 4), (4, 3), (4, 4), (3, 5), (5, 3), (4, 5), (5, 5)],
+                       (3, 3)),
+            'toric': (True, TD, RotatedToricCode, [(2, 2), (2, 4), (4, 2), (4, 4), (4, 6), (6, 4)], (2, 2))}
+    for fam in families:
+        toric, D, Code, sizes, exh_size = fams[fam]
+        dname = 'RotatedToricSMWPM' if toric else 'RotatedPlanarSMWPM'
 
-        def check(rows, recovery, what):
-            if recovery is None:
-                return
-            want = np.bitwise_xor.reduce(np.asarray(rows, dtype=int), axis=0)
-            if not np.array_equal(synd(S, recovery), want):
-                acc['monitor'] += 1
-                ctx.monitor_fail('smwpm recovery does not reproduce the syndrome', what,
-                                 key='RotatedPlanarSMWPM.decode:syndrome')
-        # exhaustive ideal decoding of the smallest lattice: every syndrome (finite bias), every Y-syndrome (infinite)
-        if size == (3, 3):
-            m = S.shape[0]
-            allm = list(range(1 << m))
-            if quick:
-                allm = [0] + rng.sample(allm[1:], 63)
-            for mask in allm:
-                s = np.array([(mask >> i) & 1 for i in range(m)], dtype=int)
-                eta = rng.choice([None, 0.5, 10])
-                em = rng.choice(FINITE)
-                dec = PD(eta=eta)
-                r = one(ctx, acc, PD, dec, code, S, size, np.array([s]), True, em, rng.choice(PS), 0.0, 'exh-finite')
-                check([s], r, {'size': list(size), 'syndrome': bits(s), 'eta': eta, 'em': list(em)})
-            seen = set()
-            for ymask in range(1 << n):
-                e = np.zeros(2 * n, dtype=int)
-                for qb in range(n):
-                    if (ymask >> qb) & 1:
-                        e[qb] = e[n + qb] = 1
-                s = synd(S, e)
-                if bits(s) in seen:
-                    continue
-                seen.add(bits(s))
-            ys = sorted(seen)
-            if quick:
-                ys = rng.sample(ys, min(len(ys), 48))
-            for sb in ys:
-                s = np.array([int(ch) for ch in sb], dtype=int)
-                dec = PD()
-                r = one(ctx, acc, PD, dec, code, S, size, np.array([s]), True, ('bpf',), rng.choice(PS), 0.0, 'exh-inf')
-                check([s], r, {'size': list(size), 'syndrome': sb, 'eta': None, 'em': ['bpf']})
-        # random: ideal and FTP
-        for _ in range(n_rand):
-            eta, em, yonly = pick_context(rng)
-            dec = PD(eta=eta)
-            mode = rng.choice(['ideal', 'ftp1', 'ftp2', 'ftp3', 'ftp2', 'ftp3'])
-            if mode == 'ideal':
-                p = rng.choice(PS)
-                e = rand_error(rng, n, rng.choice([0.1, 0.25, 0.5]), yonly)
-                rows = np.array([synd(S, e)])
-                r = one(ctx, acc, PD, dec, code, S, size, rows, True, em, p, 0.0, 'rand-ideal')
-            else:
-                T = int(mode[3])
-                p = rng.choice([0, 0.05, 0.2, 0.5] if T > 1 else [0.05, 0.2, 0.5])
-                q = rng.choice([0, 0.1, 0.2, p, 1]) if T > 1 else rng.choice([0, 0.1, 1])
-                if p == 0 and q in (0, 1):
-                    q = 0.1
-                rows = ftp_rows(rng, S, n, T, p if p else 0.0, q, yonly)
-                r = one(ctx, acc, PD, dec, code, S, size, rows, False, em, p, q, 'rand-' + mode)
-            check(rows, r, {'size': list(size), 'rows': mat(rows), 'eta': eta, 'em': list(em), 'mode': mode})
+        def mk(eta, ftp):
+            if toric:
+                return D(itp=True, eta=eta) if ftp else D(eta=eta)
+            return D(eta=eta)
+        for size in sizes:
+            code = Code(*size)
+            S = np.array(code.stabilizers, dtype=int)
+            n = S.shape[1] // 2
+            if not toric:
+                acc['paths'] += path_cases(ctx, D, code, size)
+
+            def check(rows, recovery, what):
+                if recovery is None:
+                    return
+                want = np.bitwise_xor.reduce(np.asarray(rows, dtype=int), axis=0)
+                if not np.array_equal(synd(S, recovery), want):
+                    acc['monitor'] += 1
+                    ctx.monitor_fail('smwpm recovery does not reproduce the syndrome', dict(what, decoder=dname),
+                                     key=dname + '.decode:syndrome')
+            # exhaustive ideal decoding of the smallest lattice: every syndrome of an error (finite bias), every
+            # syndrome of a Y-only error (infinite bias)
+            if size == exh_size:
+                if toric:
+                    alls = all_syndromes(S, n, False)
+                else:  # full rank: every bit vector is a syndrome
+                    m = S.shape[0]
+                    alls = [np.array([(mask >> i) & 1 for i in range(m)], dtype=int) for mask in range(1 << m)]
+                if quick and len(alls) > 64:
+                    alls = alls[:1] + rng.sample(alls[1:], 63)
+                for s in alls:
+                    eta = rng.choice([None, 0.5, 10])
+                    em = rng.choice(FINITE)
+                    r = one(ctx, acc, D, mk(eta, False), code, S, size, np.array([s]), True, em, rng.choice(PS), 0.0,
+                            'exh-finite', toric=toric)
+                    check([s], r, {'size': list(size), 'syndrome': bits(s), 'eta': eta, 'em': list(em)})
+                ys = all_syndromes(S, n, True)
+                if quick and len(ys) > 48:
+                    ys = rng.sample(ys, 48)
+                for s in ys:
+                    r = one(ctx, acc, D, mk(None, False), code, S, size, np.array([s]), True, ('bpf',), rng.choice(PS),
+                            0.0, 'exh-inf', toric=toric)
+                    check([s], r, {'size': list(size), 'syndrome': bits(s), 'eta': None, 'em': ['bpf']})
+            # random: ideal and FTP
+            for _ in range(n_rand):
+                eta, em, yonly = pick_context(rng)
+                mode = rng.choice(['ideal', 'ftp1', 'ftp2', 'ftp3', 'ftp2', 'ftp3'])
+                if mode == 'ideal':
+                    p = rng.choice(PS)
+                    e = rand_error(rng, n, rng.choice([0.1, 0.25, 0.5]), yonly)
+                    rows = np.array([synd(S, e)])
+                    r = one(ctx, acc, D, mk(eta, False), code, S, size, rows, True, em, p, 0.0, 'rand-ideal', toric=toric)
+                else:
+                    T = int(mode[3])
+                    p = rng.choice([0, 0.05, 0.2, 0.5] if T > 1 else [0.05, 0.2, 0.5])
+                    q = rng.choice([0, 0.1, 0.2, p, 1]) if T > 1 else rng.choice([0, 0.1, 1])
+                    if p == 0 and q in (0, 1):
+                        q = 0.1
+                    rows = ftp_rows(rng, S, n, T, p if p else 0.0, q, yonly)
+                    r = one(ctx, acc, D, mk(eta, True), code, S, size, rows, False, em, p, q, 'rand-' + mode, toric=toric)
+                check(rows, r, {'size': list(size), 'rows': mat(rows), 'eta': eta, 'em': list(em), 'mode': mode})
     if MISSING:
         ctx.case('smwpm hooks', 'all-present', nontrivial=False, meta={'missing': list(MISSING)})
     acc.pop('rec')
